@@ -373,7 +373,7 @@ theorem tagsOk_all : Ty.all.all tagsOk = true := by decide +kernel
 `: _ - .` only — so nothing the serialiser writes as a tag can be mistaken by the tokeniser; and the attribute keys
 that can be written into the start tag of one struct (`xmlns` of a root, the prefix declarations `xmlns:xsi`, the
 members bound to attributes: `attrKeys`) are pairwise distinct — so `check_attributes` (quick-xml's duplicate check,
-since the repair ab8d746) refuses nothing the serialiser writes. -/
+since the repair 2bbb69d) refuses nothing the serialiser writes. -/
 theorem C13_tables_tags_good (t : Ty) :
     goodName t.selfTag = true ∧ (∃ s, serSchema t = some s ∧ s.tagsGood = true) ∧
     (∀ r, serRoot t = some r → r.tagsGood = true) := by
@@ -534,7 +534,7 @@ theorem C13_accepted_documents_wellformed_pi_target (X : Ext) (root : Bytes) (s 
 
 /-- **The attributes of every start tag of an accepted document are syntactically well-formed** (clause
 attribute-syntax of well-formedness: production [41] Attribute `Name Eq AttValue`, [10] AttValue quoted and closed,
-constraint *Unique Att Spec*; FULL since the repair ab8d746: `Deserializer::read_event` runs quick-xml's attribute
+constraint *Unique Att Spec*; FULL since the repair 2bbb69d: `Deserializer::read_event` runs quick-xml's attribute
 iterator with its checks over every `Start` and `Empty` event, `check_attributes` — until then only the start tag of
 `Grantee` was looked at, without the duplicate check: finding `xml-illformed-accepted:attribute-syntax`, fixed). For
 every token sequence `q`, every schema, every expected root: when the document is accepted, the bytes behind the
